@@ -15,7 +15,7 @@ PLAN_ENTRY = {'stages': [
     ]}
 
 CLAIM = {
-    'text': 'TLC model-checks integer transcriptions of the six try_from_basis_* constructors and of iso3_from_xyo (two cross products each, normalisation dropped) against the L1 frame predicate on every ordered pair of lattice vectors in [-2,2]^3 (orthogonal, right-handed, primary axis co-directed with the first argument, secondary axis in the half-plane of the second, failure exactly for parallel or zero pairs) and laws of the specification (motions are proper rotations, affine rank and weighted mean commute with them). Every enumerated case is executed by the real library and TLC judges the projected observations against L1: all 6 constructors + iso3_from_xyo on every lattice pair with power-of-two lengths 2^-10..2^4 and lattice origins (rotation orthonormal and right-handed, axes, origin, Err/panic exactly for parallel or zero arguments, no hang: watchdog child processes); Plane3 from every triple of points of {0,1,2}^3 (quick: 3 first points), from point+normal and from surface points for every lattice normal (contains defining points, unit normal parallel to the exact normal, signed distance and offset as relations on the recorded normal, projection on the plane / along the normal / idempotent / fixing plane points, inversion, transform_by equivariance, intersection_distance hits the plane); SvdBasis3/2 on all 4-multisets of a 12 (thorough 18) point lattice, all 3- and 4-multisets of a 9 point planar lattice and curated 5-8 point sets (generic, planar, collinear, coincident, repeated singular values), unweighted and with integer weights 1..3: centre = exact weighted mean, orthonormal basis, ordered non-negative singular values, sv^2/n = variance of the basis coordinates and vanishing mixed moments (weighted: for w or w^2 weighting, normalised or not), point_to_basis bound to the exact inputs, round trip, rank = exact affine rank, equivariance under 8 exact rigid motions (incl. Pythagorean rotations), invariance of centre / separated axes / rank under doubling all weights, Iso3/Iso2 from the basis. Seeded random larger instances: vectors up to 100 (nearly parallel pairs, exact multiples), 9-24 point sets, triples in [0,6]^3.',
+    'text': 'TLC model-checks integer transcriptions of the six try_from_basis_* constructors and of iso3_from_xyo (two cross products each, normalisation dropped) against the L1 frame predicate on every ordered pair of lattice vectors in [-2,2]^3 (orthogonal, right-handed, primary axis co-directed with the first argument, secondary axis in the half-plane of the second, failure exactly for parallel or zero pairs) and laws of the specification (motions are proper rotations, affine rank and weighted mean commute with them). Every enumerated case is executed by the real library and TLC judges the projected observations against L1: all 6 constructors + iso3_from_xyo on every lattice pair with power-of-two lengths 2^-10..2^4 and lattice origins (rotation orthonormal and right-handed, axes, origin, Err/panic exactly for parallel or zero arguments, no hang: watchdog child processes); Plane3 from every triple of points of {0,1,2}^3 (quick: 3 first points), from point+normal and from surface points for every lattice normal (contains defining points, unit normal parallel to the exact normal, signed distance and offset as relations on the recorded normal, projection on the plane / along the normal / idempotent / fixing plane points, inversion, transform_by equivariance, intersection_distance hits the plane); SvdBasis3/2 on all 4-multisets of a 12 (thorough 18) point lattice, all 3- and 4-multisets of a 9 point planar lattice and curated 5-8 point sets (generic, planar, collinear, coincident, repeated singular values), unweighted and with integer weights 1..3: centre = exact weighted mean, orthonormal basis, ordered non-negative singular values, sv^2/n = variance of the basis coordinates and vanishing mixed moments (weighted: for w or w^2 weighting, normalised or not), point_to_basis bound to the exact inputs, round trip, rank = exact affine rank, equivariance under 8 exact rigid motions (incl. Pythagorean rotations), invariance of centre / separated axes / rank under doubling all weights, Iso3/Iso2 from the basis. Seeded random larger instances: vectors up to 100 (nearly parallel pairs, exact multiples), 9-24 point sets, triples in [0,6]^3. Half of the seeded three-point planes lie 2^27..2^29 lattice units from the origin (offsets that are not powers of two).',
     'design_ref': 'DESIGN.md section 6 C19',
     'note': 'Trusted: TLC; harness projection and the derived second moments; nalgebra for applying the rigid motions. Exhaustive for the enumerated lattice domain only; general-position float inputs are not used. Vectors shorter than 2^-10 (the library treats lengths below 1e-10 as zero) are outside the domain.',
     'technique': 'TLA+ spec (L1 semantics + L2 transcription of the constructors) + TLC: bounded model checking, TLC-generated cases replayed into engeom, TLC trace validation of recorded observations',
